@@ -16,6 +16,7 @@ from typing import Any, Dict, List, Sequence, Tuple
 import numpy as np
 
 from mc import qsim, world
+from mc.report import guard_harness as _guard
 from mc.report import add_sample, add_violation, count, new_part
 
 LEVEL = "exploration"
@@ -108,6 +109,7 @@ def shard_single(shard):
                 out = transpile([("set", [Q0, qid]), (g, [Q0])])
                 u = unitary_of(out, [qid])
             except Exception as exc:
+                _guard(exc)
                 add_violation(part, f"transpile-raises/{g}", f"{type(exc).__name__}: {exc}", case)
                 continue
             if not qsim.equal_up_to_phase(u, qsim.GATES1[g]):
@@ -138,6 +140,7 @@ def shard_rot(shard):
                         add_violation(part, f"transpile-raises/{mn}", "rotation rejected", case)
                         continue
                     except Exception as exc:
+                        _guard(exc)
                         add_violation(part, f"transpile-raises/{mn}", f"{type(exc).__name__}: {exc}", case)
                         continue
                     if hw and d > 4:
@@ -181,6 +184,7 @@ def shard_two(shard):
                 out = transpile([("set", [Q0, a]), ("set", [Q1, b]), (g, [Q0, Q1])])
                 u = unitary_of(out, ids)
             except Exception as exc:
+                _guard(exc)
                 add_violation(part, f"transpile-raises/{g}/{kind}", f"{type(exc).__name__}: {exc}", case)
                 continue
             want = embed(mat, [a, b], ids)
@@ -203,6 +207,7 @@ def shard_mov(shard):
             out = transpile([("set", [Q0, src]), ("set", [Q1, tgt]), ("mov", [Q0, Q1])])
             u = unitary_of(out, [src, tgt])
         except Exception as exc:
+            _guard(exc)
             add_violation(part, "transpile-raises/mov", f"{type(exc).__name__}: {exc}", case)
             continue
         o0 = u[:, 0].reshape(2, 2)     # U |0>_src |0>_tgt   as [src, tgt]
@@ -250,6 +255,7 @@ def shard_matrices(shard):
         try:
             return np.asarray(fn(), dtype=complex)
         except Exception as exc:
+            _guard(exc)
             add_violation(part, f"published-matrix-raises/{what}", f"{what}: computing the published matrix raised "
                           f"{type(exc).__name__}: {exc}", case)
             return bad
